@@ -15,6 +15,7 @@ type PELayout struct {
 	PE32Plus  bool
 	Lfanew    int
 	NumRva    int
+	StaleCertVA bool // no table (size 0) but the entry's address field still holds a value
 	NSec      int
 	Order     string // file | reversed | shuffled
 	ZeroSecs  int    // how many of the sections have SizeOfRawData == 0
@@ -69,6 +70,11 @@ func RandomPELayout(r *rand.Rand, i int) PELayout {
 	l.Gaps = l.NSec-l.ZeroSecs >= 1 && r.Intn(6) == 0
 	if r.Intn(2) == 0 {
 		l.Trailing = 1 + r.Intn(64)
+	}
+	l.StaleCertVA = i%5 == 2
+	if i%17 == 9 {
+		// very many sections (the format's count is 16 bits; loaders stop at 96)
+		l.NSec = []int{95, 96, 97, 128, 300}[(i/17)%5]
 	}
 	switch i % 7 {
 	case 3:
@@ -255,6 +261,10 @@ func BuildPE(r *rand.Rand, l PELayout) ([]byte, PELayout) {
 	dd := opt + optSize - 8*l.NumRva
 	le.PutUint32(b[dd+32:], uint32(certVA))
 	le.PutUint32(b[dd+36:], uint32(l.CertTable))
+	if l.StaleCertVA && l.CertTable == 0 && l.NumRva >= 5 {
+		// a signature was stripped by cutting the file and clearing the size only
+		le.PutUint32(b[dd+32:], uint32(total-total%8+8*r.Intn(3)))
+	}
 	// section table
 	for i, s := range secs {
 		o := sectab + 40*i
